@@ -135,6 +135,14 @@ def h_ping(ctx, flags, enc):
         obs.append(("pong-id", SC.val_eq(_attr(iqs[0], "id"), pid)))
         obs.append(("pong-type-result", SC.val_eq(_attr(iqs[0], "type"), "result")))
         obs.append(("pong-to-server", SC.val_eq(_attr(iqs[0], "to"), "s.whatsapp.net")))
+    # a second ping (the server may reuse ids: same or different id) is answered as well
+    pid2 = H.zstr(ctx, "id2")
+    n0 = len(bottom.down)
+    bottom.inject(N("iq", {"id": pid2, "type": "get", "xmlns": "urn:xmpp:ping", "from": "s.whatsapp.net"}))
+    again = _count(bottom.down[n0:], "iq")
+    obs.append(("second ping: exactly-one-pong (got %d)" % len(again), len(again) == 1 and len(bottom.down) == n0 + 1))
+    if len(again) == 1:
+        obs.append(("second ping: pong-id", SC.val_eq(_attr(again[0], "id"), pid2)))
     return obs
 
 
